@@ -129,8 +129,9 @@ def run(ctx):
             failures.append(("proof", {"file": "coqchk", "coq_error": o2[-600:]}))
 
     # ---- 3. harness (real code) ---------------------------------------------------------------
+    hsrc = vcheck.file_hash(glob.glob(os.path.join(vcheck.VERIF, "harness", "C25", "*")))
     exe = vcheck.cxx_build(os.path.join(vcheck.VERIF, "harness", "C25", "sweep.cpp"), os.path.join(ctx.work, "h", "sweep"),
-                           hook=False, link_cds=False, opt="-O2", extra=("-DNDEBUG",))
+                           hook=False, link_cds=False, opt="-O2", extra=("-DNDEBUG", "-DSWEEP_SRC_HASH=0x" + hsrc))
     sw = os.path.join(ctx.work, "sweep")
     shutil.rmtree(sw, ignore_errors=True)
     os.makedirs(sw)
